@@ -202,20 +202,14 @@ def _run_face(case, ctx):
             bad("accuracy_default", cls, "too-inaccurate", f"area {a_def!r} exact {exact!r} rel err {abs(a_def - exact) / exact:.3e} > {tol}")
 
     # ---- every drawn (rule, order)
-    err1 = {}
-    for rule in ("triangular", "gaussian"):
-        err1[rule] = abs(float(_area(g, rule, 1)[0]) - exact)
     for rule, order in [tuple(o) for o in case["orders"]]:
         a = float(_area(g, rule, order)[0])
         ctx.ev("nonnegative")
         if not (a >= 0) or not math.isfinite(a):
             bad("nonnegative", f"{rule}:{order}", "negative-or-nan", f"area {a}")
             continue
-        if tol is not None:
-            ctx.ev("order_not_worse_than_first")
-            lim = max(err1[rule], tol * exact) * (1 + 1e-9) + 1e-13
-            if abs(a - exact) > lim:
-                bad("order_not_worse_than_first", f"{rule}:{order}", "worse", f"err {abs(a - exact):.3e} > max(err(order 1) {err1[rule]:.3e}, class tol {tol * exact:.3e})")
+        # (no accuracy is asserted at intermediate orders: the statement bounds the default rule and the limit only;
+        # every table's exactness is checked exhaustively in the enumerated part)
 
     # ---- convergence at the highest orders
     if tol is not None:
